@@ -30,7 +30,7 @@ type FilterDictionary interface {
 func AddStandardFilters(fd FilterDictionary) { //nolint: gocyclo
 	// value filters
 	fd.AddFilter("default", func(value, defaultValue any) any {
-		if value == nil || value == false || values.IsEmpty(value) {
+		if !values.Truthy(value) || values.IsEmpty(value) {
 			value = defaultValue
 		}
 		return value
